@@ -273,6 +273,37 @@ impl<Front: SocketHandler> Connection<Front> {
         }
     }
 
+    /// Returns true if this HTTP/1.1 backend connection holds bytes that were
+    /// read but not parsed yet behind an interim response (100 / 103) the
+    /// frontend has not written: the H1 parser stops after the interim, and what
+    /// the backend sent in the same segment (typically its whole final response
+    /// and its FIN) is only parsed once the frontend has flushed the interim and
+    /// re-armed this connection. Used to keep the dead-backend check from
+    /// closing the connection, and answering 502, over a response that sits
+    /// complete in the buffer.
+    pub(super) fn has_unparsed_behind_interim<L>(&self, context: &Context<L>) -> bool
+    where
+        L: ListenerHandler + L7ListenerHandler,
+    {
+        match self {
+            Connection::H1(c) => {
+                let Some(stream_id) = c.stream else {
+                    return false;
+                };
+                if !c.position.is_client() {
+                    return false;
+                }
+                let kawa = &context.streams[stream_id].back;
+                let interim = matches!(
+                    kawa.detached.status_line,
+                    kawa::StatusLine::Response { code, .. } if (100..200).contains(&code) && code != 101
+                );
+                interim && kawa.is_terminated() && !kawa.storage.unparsed_data().is_empty()
+            }
+            Connection::H2(_) => false,
+        }
+    }
+
     /// Re-enable READABLE if this connection is parked waiting for buffer space
     /// and the target stream's buffer now has enough room.
     ///
